@@ -349,8 +349,14 @@ func irisEqual(i1, i2 IRI, checkScheme bool) bool {
 	if !strings.EqualFold(u.Host, uw.Host) {
 		return false
 	}
-	if !(u.Path == "/" && uw.Path == "" || u.Path == "" && uw.Path == "/") &&
-		!strings.EqualFold(filepath.Clean(u.Path), filepath.Clean(uw.Path)) {
+	// NOTE: an empty path is the root path; this needs to hold after cleaning too ("" vs. "/a/..")
+	cleanPath := func(p string) string {
+		if p == "" {
+			p = "/"
+		}
+		return filepath.Clean(p)
+	}
+	if !strings.EqualFold(cleanPath(u.Path), cleanPath(uw.Path)) {
 		return false
 	}
 	uq := u.Query()
